@@ -48,7 +48,8 @@ func observeCheck(knut, dir string, id int, j *kj.Journal, cs map[string]any) {
 	reports := []any{}
 	if id%3 == 0 {
 		lo, hi := journalSpan(j)
-		for _, argv := range [][]string{{"balance", "--color=false"}, {"balance", "--color=false", "--to", ymd((lo + hi) / 2), "--days"}, {"print"}, {"balance", "--color=false", "--from", ymd(hi + 1)}} {
+		for _, argv := range [][]string{{"balance", "--color=false"}, {"balance", "--color=false", "--to", ymd((lo + hi) / 2), "--days"}, {"print"}, {"balance", "--color=false", "--from", ymd(hi + 1)},
+			{"register", "--color=false"}, {"register", "--color=false", "-m", "0,^(Expenses|Assets)"}, {"balance", "--color=false", "-m", "0,."}} {
 			rr := core.Run(core.RunOpts{Timeout: 30 * time.Second}, knut, append(argv, file)...)
 			reports = append(reports, rr.Exit == 0)
 		}
